@@ -61,3 +61,10 @@ pub uninterp spec fn utf8_decode(b: Seq<u8>) -> Option<Seq<char>>;
 #[verifier::external_body]
 pub fn str_from_utf8(b: &[u8]) -> (r: Result<&str, Utf8Error>)
     ensures (r is Ok) == (utf8_decode(b@) is Some), r is Ok ==> r->Ok_0@ == utf8_decode(b@)->Some_0 { unimplemented!() }
+
+/// std: <[u8]>::trim_ascii_end / trim_ascii_start / trim_ascii (no vstd contract in this build): some sub-slice of the
+/// input -- in general NOT the input itself
+pub uninterp spec fn ascii_trimmed(s: Seq<u8>, which: int) -> Seq<u8>;
+pub assume_specification[ <[u8]>::trim_ascii_end ](s: &[u8]) -> (r: &[u8]) ensures r@ == ascii_trimmed(s@, 1);
+pub assume_specification[ <[u8]>::trim_ascii_start ](s: &[u8]) -> (r: &[u8]) ensures r@ == ascii_trimmed(s@, 0);
+pub assume_specification[ <[u8]>::trim_ascii ](s: &[u8]) -> (r: &[u8]) ensures r@ == ascii_trimmed(s@, 2);
